@@ -61,7 +61,8 @@ type Sched struct {
 	KeepTrace    bool
 	timers       []*timerRec
 	NoAdvanceAlt bool // never offer "advance time while threads are runnable"
-	Leaked       int  // threads left blocked in a real operation when the execution ended
+	adopted      map[uintptr]bool // goroutines mapped to a thread without having been spawned by it (coroutines)
+	Leaked       int              // threads left blocked in a real operation when the execution ended
 }
 
 // S is the active scheduler; nil = pass-through (free-running) mode.
@@ -84,10 +85,20 @@ func (s *Sched) self() *Thread {
 	s.mu.Lock()
 	defer s.mu.Unlock()
 	if t := s.byG[g]; t != nil {
+		// the runtime reuses g structures: an adopted (coroutine) entry may be left over from a
+		// coroutine of another thread that has ended; the caller belongs to the granted thread
+		if s.adopted[g] && s.granted != nil && t != s.granted {
+			s.byG[g] = s.granted
+			return s.granted
+		}
 		return t
 	}
 	if s.granted != nil { // an iter.Pull coroutine of the granted thread
 		s.byG[g] = s.granted
+		if s.adopted == nil {
+			s.adopted = map[uintptr]bool{}
+		}
+		s.adopted[g] = true
 		return s.granted
 	}
 	// spontaneous goroutine (a runtime timer callback not created through the shim)
@@ -176,6 +187,7 @@ func (s *Sched) spawn(f func()) *Thread {
 		defer owners.Delete(g)
 		s.mu.Lock()
 		s.byG[g] = t
+		delete(s.adopted, g)
 		s.mu.Unlock()
 		<-t.wake
 		if t.s != S {
